@@ -367,12 +367,32 @@ func ruleTERM1(c *Ctx) []Ob {
 		case *ssa.Call:
 			// a boolean helper that answers true only where the strict comparison holds
 			g := staticCallee(x)
-			if g == nil || !c.IsLib(c.declared(g)) || !branch {
+			if g == nil || !c.IsLib(c.declared(g)) {
 				return false
 			}
 			g = c.declared(g)
 			if g.Signature.Results().Len() != 1 || len(g.Blocks) == 0 {
 				return false
+			}
+			if !branch {
+				// a helper that answers FALSE only where the strict comparison holds (atFirstKey(k): "no key
+				// comes before k" - false means one does)
+				for _, ret := range returnsOf(g) {
+					rv, has := returnedValue(ret, 0)
+					if !has {
+						return false
+					}
+					for _, og := range origins(rv) {
+						if b, isC := constBool(og); isC && b {
+							continue // not a way of answering false
+						}
+						if strictCond(og, false, depth+1) {
+							continue
+						}
+						return false
+					}
+				}
+				return true
 			}
 			for _, ret := range returnsOf(g) {
 				rv, has := returnedValue(ret, 0)
@@ -4225,7 +4245,7 @@ func (c *Ctx) condGivesNonNeg(cond ssa.Value, branch bool, v ssa.Value) bool {
 // nonNegAt: the integer v is known to be at least zero when control is in block at (extra: the
 // conditions of the edge just taken).
 func (c *Ctx) nonNegAt(fn *ssa.Function, v ssa.Value, at *ssa.BasicBlock, extra []signCond, depth int) bool {
-	if depth > 8 || v == nil {
+	if depth > 12 || v == nil {
 		return false
 	}
 	switch x := v.(type) {
@@ -4237,7 +4257,7 @@ func (c *Ctx) nonNegAt(fn *ssa.Function, v ssa.Value, at *ssa.BasicBlock, extra 
 			return true
 		}
 		// a library helper all of whose results are non-negative
-		if g := staticCallee(x); g != nil && c.IsLib(c.declared(g)) && len(c.declared(g).Blocks) > 0 && depth < 4 {
+		if g := staticCallee(x); g != nil && c.IsLib(c.declared(g)) && len(c.declared(g).Blocks) > 0 && depth < 7 {
 			g = c.declared(g)
 			all, any := true, false
 			for _, ret := range returnsOf(g) {
@@ -4247,7 +4267,7 @@ func (c *Ctx) nonNegAt(fn *ssa.Function, v ssa.Value, at *ssa.BasicBlock, extra 
 					continue
 				}
 				any = true
-				if !c.nonNegAt(g, rv, ret.Block(), nil, depth+4) {
+				if !c.nonNegAt(g, rv, ret.Block(), nil, depth+3) {
 					all = false
 				}
 			}
